@@ -34,6 +34,7 @@ def plan(tier, seed):
     cases += rowlib.gen_cases(G.redox_family(rng, 68 if q else 600), 6, CFGS, "redox")
     cases += rowlib.gen_cases(G.marker_collisions(rng, 60 if q else 600), 8, CFGS, "marker")
     cases += rowlib.gen_cases(G.heavy_unbalanced(rng, 24 if q else 200), 8, CFGS, "heavy")
+    cases += rowlib.gen_cases(G.spectator_laden(rng, 32 if q else 400), 8, CFGS, "spect")
     nj = rowlib.corpus_cases(rng, 24 if q else 200, 12,
                              [{"batch_size": None, "threshold": 0, "n_jobs": 4}], tag="nj4")
     shards = rowlib.spread(cases, 16 if q else 48)
